@@ -263,6 +263,7 @@ fn metadata_shapes(ctx: &mut Ctx, case: u64) {
                 mixed_dirs: false,
                 alias_leaf_offset: false,
                 regular: None,
+                gap_mode: 0,
             };
             let f = gen::gen_foreign(&mut rng, &o);
             let mat = json!({"metadata": name, "codec": R::codec_name(codec)});
@@ -298,6 +299,7 @@ fn metadata_shapes(ctx: &mut Ctx, case: u64) {
                 mixed_dirs: false,
                 alias_leaf_offset: false,
                 regular: None,
+                gap_mode: 0,
         };
         let f = gen::gen_foreign(&mut rng, &o);
         if PMTiles::from_bytes(f.bytes).is_err() {
@@ -387,6 +389,7 @@ fn unknown_compression(ctx: &mut Ctx, case: u64) {
                 mixed_dirs: false,
                 alias_leaf_offset: false,
                 regular: None,
+                gap_mode: 0,
             };
             let mut f = gen::gen_foreign(&mut rng, &o);
             f.bytes[97] = 0;
